@@ -36,7 +36,9 @@ def run(prop, tier):
     states = transitions = 0
     programs = lowered = validated = agree = 0
     samples, per = [], {}
-    for cfg in cfgs + ["products"]:
+    headroom = []
+    # sc5: a fix in eliminated position (applied / destructed) that re-enters itself - all of them, not a sample
+    for cfg in cfgs + ["sc5", "products"]:
         if cfg == "products":
             # n-ary products with partial patterns (spec/ZyProducts.tla): layouts <product:E/A> with E < A
             pcfg = "MC_ZyProducts_5.cfg" if tier == "quick" else "MC_ZyProducts_7.cfg"
@@ -49,7 +51,7 @@ def run(prop, tier):
             this_limit = 0
         else:
             res0, cases = p_core.tlc_cases(cfg)
-            this_limit = limit
+            this_limit = limit if cfg != "sc5" else (200 if tier == "quick" else 2000)
         exports = os.path.join(W, cfg + ".exports.ndjson")
         summ = os.path.join(W, cfg + ".export.summary.json")
         lib.zyconf(["export-ir", cases, exports, summ, str(this_limit)], timeout=6000)
@@ -60,7 +62,7 @@ def run(prop, tier):
         recs = {}
         for l in open(exports):
             r = json.loads(l)
-            recs[r["id"]] = {"interp": r["interp"], "source_body": r["source_body"]}
+            recs[r["id"]] = {"interp": r["interp"], "source_body": r["source_body"], "fuel": r.get("fuel", 0)}
         os.remove(exports)
         states += res["distinct"] + res0["distinct"]
         transitions += res["generated"] + res0["generated"]
@@ -83,8 +85,14 @@ def run(prop, tier):
             if got["end"] == "unsupported-extern":
                 raise lib.ToolError("ZySps has no meaning for extern %s" % got.get("f"))
             ok = False
-            if got["end"] == "fuel" or want["end"] == "running":
-                ok = outw.startswith(outg) or outg.startswith(outw)      # divergence within fuel: prefix consistency only
+            if rec.get("fuel") and got["end"] != "fuel":
+                headroom.append(r["steps"] / rec["fuel"])
+            if want["end"] == "running":
+                ok = outw.startswith(outg) or outg.startswith(outw)      # the source diverges within its fuel: prefix consistency only
+            elif got["end"] == "fuel":
+                # the source terminates (reference semantics AND interpreter) but its SPS-low form is still running after
+                # 60 x (source steps + 60) machine steps; terminating runs use a small part of that (fuel_used_max in the evidence)
+                ok = False
             elif got["end"] == "exit":
                 ok = want["end"] == "exit" and want["code"] == got["code"] and outw == outg
             elif got["end"] == "trap":
@@ -92,7 +100,7 @@ def run(prop, tier):
             if ok:
                 agree += 1
             else:
-                out.add_findings([{"property": "C19", "kind": "sps-low-behaviour-differs" if got["end"] != "stuck" else "sps-low-program-stuck",
+                out.add_findings([{"property": "C19", "kind": "sps-low-program-stuck" if got["end"] == "stuck" else ("sps-low-does-not-terminate" if got["end"] == "fuel" else "sps-low-behaviour-differs"),
                                    "detail": "interpreter: %s; SPS-low machine: %s out=%r" % (json.dumps(want), json.dumps(got), outg),
                                    "source": rec["source_body"]}])
             if len(samples) < 4 and pid % 37 == 0:
@@ -120,6 +128,7 @@ def run(prop, tier):
     out.coverage = {"states": max(states, 1), "transitions": max(transitions, 1), "traces_validated_against_impl": validated,
                     "samples": samples or [{"note": "see configurations"}], "programs": lowered, "disagreements_checked": lowered,
                     "configurations": per, "ir_exports_validated_by_tlc": validated, "behaviour_agreements": agree,
+                    "fuel_used_max": round(max(headroom), 4) if headroom else None,
                     "explanation": "accepted executables of the ZyCore enumeration (largest + seeded sample) are lowered by the real pipeline through every stage "
                                    "(panics/errors are findings; LlvmUnsupportedLocal is the documented exception); the real SpsLowProgram and AssemblyProgram "
                                    "arenas are exported and TLC evaluates the invariants of ZySps.tla on them and executes the SPS-low program with its reference "
